@@ -13,6 +13,9 @@ header comment of pathmatch.h):
   B. every inline form of the manual (same line, line before, before with blank/comment lines between, [a,b],
      symbolName=, trailing comments, the '{' special case, begin/end blocks incl. nested and interleaved ones, -file,
      -macro, suppressions inside a header), each in its own function / file, all analysed by one run per group.
+  B2. every bracket list [e1, e2, e3] of length 1..3 whose elements independently take an id from {zerodiv, uninitvar, *}
+     and a symbolName from {none, matching, glob, wrong}, in every order, in the plain, -begin/-end, -macro, -file forms
+     and in a header, on a line carrying a finding without symbol and a finding with one.
   C. --exitcode-suppress / --exitcode-suppressions entries never hide.
   D. syntactically invalid suppressions never hide anything silently.
 
@@ -656,6 +659,124 @@ def part_inline(ctx, tier, tally):
     ctx.sample({"part": "B", "example_function": gen_line_file([("Z", "prev_mixed", "br_other_first", "prefix", "none")], 0)[0].split("\n")}, maxn=3)
 
 
+
+# ================================================================================================ part B2: bracket lists
+# Every bracket list of length 1..3 whose elements INDEPENDENTLY take an id from {zerodiv, uninitvar, '*'} and a
+# symbolName from {none, the variable of the line, a glob matching it, a wrong name}, in every order, in the plain
+# (line before / same line), -begin/-end, -macro and -file forms and inside a header, against a line that carries a
+# finding without symbol (zerodiv) AND a finding with a symbol (uninitvar); plus lines carrying only one of the two.
+# An element hides a finding iff its own id and its own symbolName match (vlib/ref_suppress.py).
+LIST_IDS = collections.OrderedDict([("Z", "zerodiv"), ("U", "uninitvar"), ("G", "*")])
+LIST_SYMS = ("none", "match", "glob", "wrong")
+
+
+def list_elements():
+    return [(i, sy) for i in LIST_IDS for sy in LIST_SYMS]
+
+
+def all_lists(maxlen):
+    el = list_elements()
+    for n in range(1, maxlen + 1):
+        for combo in itertools.product(el, repeat=n):
+            yield combo
+
+
+def list_text(combo, name, tight):
+    parts = []
+    for i, sy in combo:
+        t = LIST_IDS[i]
+        if sy != "none":
+            t += " symbolName=" + {"match": "v" + name, "glob": "v" + name[:2] + "*", "wrong": "zz" + name}[sy]
+        parts.append(t)
+    return ("[%s]" % ",".join(parts)) if tight else ("[%s]" % ", ".join(parts))
+
+
+def list_class(form, combo):
+    return "list:%s:%s" % (form, ",".join("%s-%s" % e for e in combo))
+
+
+LINE_BODY = {"both": "return x/0 + v{n};", "Z": "(void)v{n}; return x/0;", "U": "return x + v{n};"}
+
+
+def gen_list_functions(form, combos, prefix, linekind="both"):
+    """-> (lines, spans) for one file; every list gets its own function (and macro)."""
+    lines, spans = [], []
+    for k, combo in enumerate(combos):
+        n = "%s%d" % (prefix, k)
+        lt = list_text(combo, n, tight=k % 2 == 1)
+        body = LINE_BODY[linekind].format(n=n)
+        decl = "int %s(int x){ int v%s;" % (n, n) if linekind != "Z" else "int %s(int x){ int v%s = 0;" % (n, n)
+        if form == "prev":
+            fl = [decl, "  // cppcheck-suppress " + lt, "  " + body, "}"]
+        elif form == "same":
+            fl = [decl, "  %s // cppcheck-suppress%s" % (body, lt), "}"]
+        elif form == "block":
+            fl = [decl, "  // cppcheck-suppress-begin " + lt, "  " + body, "  // cppcheck-suppress-end " + lt, "}"]
+        elif form == "macro":
+            fl = ["// cppcheck-suppress-macro " + lt, "#define M%s(x,v) ((x)/0 + (v))" % n,
+                  "int %s(int x){ int v%s; return M%s(x, v%s); }" % (n, n, n, n)]
+        else:
+            raise ValueError(form)
+        spans.append((len(lines) + 1, len(lines) + len(fl), list_class(form + ("" if linekind == "both" else "-" + linekind), combo)))
+        lines += fl
+    return lines, spans
+
+
+def list_groups(tier):
+    """-> [(group name, files, spans, number of lists)]"""
+    groups = []
+    full = list(all_lists(3))
+    short = list(all_lists(2))
+    plan = [("prev", full), ("block", full), ("macro", full), ("same", full if tier == "thorough" else short)]
+    for form, combos in plan:
+        for ci, chunk in enumerate(sc.chunks(combos, 320)):
+            fname = "ls_%s%d.c" % (form, ci)
+            lines, spans = gen_list_functions(form, chunk, "%s%d_" % (form[0], ci))
+            groups.append(("lists-%s%d" % (form, ci), {fname: "\n".join(lines) + "\n"}, {fname: spans}, len(chunk)))
+    # lines carrying only one of the two findings
+    for kind in ("Z", "U"):
+        fname = "ls_only%s.c" % kind
+        lines, spans = gen_list_functions("prev", short, "o%s_" % kind.lower(), kind)
+        groups.append(("lists-only-" + kind, {fname: "\n".join(lines) + "\n"}, {fname: spans}, len(short)))
+    # inside a header included by two files
+    lines, spans = gen_list_functions("prev", short, "hh_")
+    lines = [l.replace("int hh_", "static int hh_", 1) if l.startswith("int hh_") else l for l in lines]
+    calls = " + ".join("hh_%d(x)" % k for k in range(len(short)))
+    hfiles = {"lsh.h": "\n".join(lines) + "\n", "lsh1.c": '#include "lsh.h"\nint lsh1(int x){ return %s; }\n' % calls,
+              "lsh2.c": '#include "lsh.h"\nint lsh2(int x){ return %s; }\n' % calls}
+    groups.append(("lists-header", hfiles, {"lsh.h": [(a, b, c.replace("list:prev", "list:header")) for a, b, c in spans]}, len(short)))
+    # -file: one file per list
+    fcombos = full if tier == "thorough" else short
+    for ci, chunk in enumerate(sc.chunks(fcombos, 160)):
+        files, spans = {}, {}
+        for k, combo in enumerate(chunk):
+            n = "lf%d_%d" % (ci, k)
+            files[n + ".c"] = "// cppcheck-suppress-file %s\nint %s(int x){ int v%s;\n  return x/0 + v%s;\n}\n" % (
+                list_text(combo, n, tight=k % 2 == 1), n, n, n)
+            spans[n + ".c"] = [(1, 99, list_class("file", combo))]
+        groups.append(("lists-file%d" % ci, files, spans, len(chunk)))
+    return groups
+
+
+def part_lists(ctx, tier, tally):
+    groups = list_groups(tier)
+    ctx.cov["bracket_lists"] = sum(g[3] for g in groups)
+
+    def work(g):
+        if ctx.expired():
+            return g, None
+        return g, run_inline(g[1])
+    for g, res in pmap(work, groups):
+        if res is None:
+            continue
+        ctx.count(g[3])
+        for fname, sp in g[2].items():
+            for lo, hi, c in sp:
+                ctx.distinct("L|" + c)
+        judge_inline(ctx, tally, g[0], g[1], g[2], res)
+    ctx.sample({"part": "B2", "example": gen_list_functions("block", [(("U", "match"), ("Z", "none"), ("G", "wrong"))], "ex")[0]}, maxn=4)
+
+
 # ================================================================================================ part D: invalid syntax
 def part_invalid(ctx, tier, tally):
     """Whatever is none of the documented formats must not hide anything without an error being shown."""
@@ -785,8 +906,8 @@ def main(tier, replay=None):
     if replay:
         return do_replay(ctx, replay)
     tally = Tally()
-    parts = os.environ.get("VERIF_PARTS", "inline,invalid,cells,global,exitcode").split(",")
-    for name, fn in (("inline", part_inline), ("invalid", part_invalid), ("cells", part_cells), ("global", part_global),
+    parts = os.environ.get("VERIF_PARTS", "inline,lists,invalid,cells,global,exitcode").split(",")
+    for name, fn in (("inline", part_inline), ("lists", part_lists), ("invalid", part_invalid), ("cells", part_cells), ("global", part_global),
                      ("exitcode", part_exitcode)):
         if name in parts:
             t0 = time.time()
@@ -810,7 +931,8 @@ def main(tier, replay=None):
              "{no symbol, exact, glob, prefix*, wrong} for 3 target findings x 3 channels x {relative, absolute} input paths, "
              "48 independent cells per run where the file pattern confines the suppression, one run each otherwise; "
              "B: every inline placement x list form x id pattern x symbol form, one function per case, plus block/file/"
-             "macro/header forms; C: the same entries as exitcode-suppressions; D: invalid forms. evaluation = one "
+             "macro/header forms; B2: all bracket lists of length 1..3 over {3 ids} x {4 symbolName classes} per element in "
+             "the plain/begin-end/macro/file/header forms; C: the same entries as exitcode-suppressions; D: invalid forms. evaluation = one "
              "(suppression, workspace) combination judged on every finding of the workspace; distinct = distinct "
              "suppression class x channel; nontrivial = all (every workspace has >= 11 findings)")
 
